@@ -5,18 +5,26 @@ from props import dbcommon as D
 ID = 'C07'
 IMPORTS = ['Engine.Db', 'Engine.DbCursor', 'Engine.DbFacts', 'Engine.RunDb', 'Engine.DbProg', 'Engine.RunDbProg']
 THEOREMS = ['C07_db_refines_list_spec', 'C07_db_refines_list_spec_from_init', 'C07_sim_op', 'C07_query_cursor_answers',
-            'C07_match_binds_pattern', 'C07_ids_invariant']
+            'C07_match_binds_pattern', 'C07_ids_invariant', 'C07_compiled_updates_are_list_operations']
 RULE = ('histories of 3-30 operations (asserta/assertz through the builtin, through a goal held in a bound variable, '
         'through a compiled clause, and through YP.assert_fact; retract taken for k answers then closed or run to '
         'exhaustion; retractall; queries through YP.query, a compiled clause and call/1; clear) over 1-3 predicates of '
         'arity 0-3, mostly one predicate so that lists get long; all predicates are read back with all-variable queries '
         'after every operation.  Non-trivial: at least one retract answer, at least one pattern with a variable and the '
-        'predicate had >= 2 facts at some point.  Distinct by hash of the case.')
+        'predicate had >= 2 facts at some point.  (b) kind dbprog: generated programs (init clause asserting 0-5 facts, a '
+        'main clause of 2-9 goals over goals on dynamic facts, retract, asserta/assertz, retractall, =, calls of a helper '
+        'predicate, goals held in bound variables, unknown predicates, optionally ending in fail with a second clause) '
+        'compiled by the real compiler and run by 2-3 queries; compared with the model Engine/DbProg.v: all answers of '
+        'every query, the stored facts of every predicate at the end, the number of facts stored during the run.  '
+        'Non-trivial (b): a goal that enumerates a predicate is followed in the same body by an update of that predicate.  '
+        'Distinct by hash of the case.')
 TRUSTED_BASE = [
     'Coq 8.16.1 kernel (coqc); vm_compute for the in-Coq evaluation of the model on every case',
     'no axioms: all C07 theorems are closed under the global context',
     'hand-written model Engine/Db.v, DbCursor.v, DbFacts.v of engine.py assert_fact/asserta/assertz/retract/retractall/clear/'
     'match_dynamic/_match_all_clauses/Answer/copy_term; tied to /repo by this differential run (not by translation)',
+    'hand-written model Engine/DbProg.v of compiled clause bodies with database builtins (query() = facts first, then the compiled '
+    'function; nested for-loops = depth-first search; database, Answer identities and allocation counter threaded through the search)',
     'harness: generators, driver of the implementation (harness/props/dbcommon.py), parser of the printed observations',
     'modelled, not verified: CPython generator protocol (a generator function runs nothing until the first next())',
 ]
